@@ -250,19 +250,22 @@ def _helper_case(args):
     h = c["h"]
     n, m = len(c["x"]), len(c["new"])
     probs = []
-    renderings = ["int", "str"] if h == "binary" else ["int"]
+    # renderings of the abstract values 0..3: themselves, letters, or integers whose text order differs from
+    # their numeric order (7 < 9 < 10 < 12, but '10' < '12' < '7' < '9')
+    WIDE = [7, 9, 10, 12]
+    renderings = ["int", "str", "wide"] if h == "binary" else ["int"]
     for rd in renderings:
         def val(v):
-            return LETTERS[v] if rd == "str" else v
+            return LETTERS[v] if rd == "str" else (WIDE[v] if rd == "wide" else v)
 
         def lit(v):
-            return repr(LETTERS[v]) if rd == "str" else str(v)
+            return repr(LETTERS[v]) if rd == "str" else str(val(v))
 
         train = pd.DataFrame({"y": np.arange(n, dtype=float)})
         new = pd.DataFrame({"y": np.zeros(m)})
         if h == "binary":
             xs = [val(v) for v in c["x"]]
-            store = rng.choice(["plain", "categorical"]) if rd == "str" else rng.choice(["plain", "float"])
+            store = rng.choice(["plain", "categorical"]) if rd == "str" else rng.choice(["plain", "float"] if rd == "int" else ["plain", "plain", "float"])
             train["x"] = pd.Categorical(xs) if store == "categorical" else (np.array(xs, dtype=float) if store == "float" else xs)
             new["x"] = [val(v) for v in c["new"]]
             fn = rng.choice(["binary", "B"])
